@@ -295,9 +295,9 @@ static std::string argv_icls(const Case &c, int sep)
 	if (c.isref || !sep) return "";
 	// quotes only matter to the whitespace splitter
 	if (!isgraph(sep)) for (size_t i = 0; i < c.n; ++i) if (c.s[i] == '"' || c.s[i] == '\'') return "quoted";
-	// a whitespace run that ends exactly at a fragment boundary
+	// whitespace directly before a fragment boundary (skipping it has to continue in the next fragment)
 	size_t p = 0;
-	for (size_t l : *c.lens) { p += l; if (l && p < c.n && isspace(c.s[p - 1]) && !isspace(c.s[p])) return "space-run-ends-at-boundary"; }
+	for (size_t l : *c.lens) { p += l; if (l && p < c.n && isspace(c.s[p - 1])) return "space-at-fragment-end"; }
 	return "plain";
 }
 static void ops_argv(Case &c, Sink &k, const mpt::message &m0)
@@ -419,7 +419,7 @@ static void body_string(Run &r, const std::string &job, Ctx &x, bool search)
 			continue;
 		}
 		size_t first = 0; for (size_t l : lens) if (l) { first = l; break; }
-		bool spaceb = false; { size_t p = 0; for (size_t l : lens) { p += l; if (l && p < n && isspace(s[p - 1]) && !isspace(s[p])) spaceb = true; } }
+		bool spaceb = false; { size_t p = 0; for (size_t l : lens) { p += l; if (l && p < n && isspace(s[p - 1])) spaceb = true; } }
 		for (int form = 0; form < 2; ++form) {
 			if (form && lens.empty()) continue;
 			c.form = form ? "message, first part inline" : "message, pure iovec list"; k.start_cmp();
@@ -647,7 +647,7 @@ void mc_explore(Run &r, const std::string &job)
 {
 	memset(&P, 0, sizeof P);
 	const char *req[] = {"nontrivial", "cases_with_zero_length_fragment", "form_inline_first_part", "form_pure_iovec_list", "search_hit_beyond_first_fragment",
-	                     "memtok_comment_started_in_earlier_fragment", "argv_space_run_ends_at_boundary", "argv_quoted_input_fragmented", "argv_iterated_more_than_one_argument",
+	                     "memtok_comment_started_in_earlier_fragment", "argv_space_at_fragment_end", "argv_quoted_input_fragmented", "argv_iterated_more_than_one_argument",
 	                     "array_message_more_than_one_argument", "read_crossing_fragment_boundary", "memcpy_source_and_target_fragmented", "memcpy_open_length_partial",
 	                     "append_multi_fragment", "qget_two_part_message"};
 	for (const char *q : req) r.require(q);
@@ -655,7 +655,7 @@ void mc_explore(Run &r, const std::string &job)
 	r.count("nontrivial", P.nontrivial); r.count("cases_with_zero_length_fragment", P.with_empty);
 	r.count("form_inline_first_part", P.inline_form); r.count("form_pure_iovec_list", P.list_form);
 	r.count("search_hit_beyond_first_fragment", P.beyond_first); r.count("memtok_comment_started_in_earlier_fragment", P.tok_comment_cross);
-	r.count("argv_space_run_ends_at_boundary", P.trim_cross); r.count("argv_quoted_input_fragmented", P.quote_cross);
+	r.count("argv_space_at_fragment_end", P.trim_cross); r.count("argv_quoted_input_fragmented", P.quote_cross);
 	r.count("argv_iterated_more_than_one_argument", P.argv_multi); r.count("array_message_more_than_one_argument", P.array_args);
 	r.count("read_crossing_fragment_boundary", P.read_cross);
 	r.count("memcpy_source_and_target_fragmented", P.memcpy_both); r.count("memcpy_open_length_partial", P.memcpy_partial);
